@@ -36,6 +36,7 @@ class Inputs:
         self.values = dict(values) if values else {}
         self.rnd = random.Random(seed)
         self.decl = {}
+        self.scale = 1
         self.assumptions = _PcList()
 
     # -- scalars -----------------------------------------------------------
@@ -46,7 +47,8 @@ class Inputs:
             if integer:
                 v = Fraction(self.rnd.randint(lo if lo is not None else -3, hi if hi is not None else 3))
             else:
-                v = Fraction(self.rnd.randint(-6, 6), self.rnd.choice([1, 2, 3, 4]))
+                # well-conditioned: |v| <= 1 (keeps real-stack validation far from rounding noise)
+                v = Fraction(self.rnd.randint(-8, 8), 8) * Fraction(self.scale)
                 if lo is not None and v < lo or hi is not None and v > hi:
                     a = Fraction(lo if lo is not None else (hi - 4))
                     b = Fraction(hi if hi is not None else (lo + 4))
@@ -392,8 +394,13 @@ def run_real(case, values, seed=0):
 def run_frac(case, values, seed=0):
     from .env import symbolic_env
     inp = Inputs("frac", seed=seed, values=values)
-    with symbolic_env(**case.env):
-        res = sym.explore(lambda: case.run(inp), max_paths=4)
+    old = sym.LIFT_FLOATS
+    sym.LIFT_FLOATS = False          # everything stays concrete (no sqrt symbols)
+    try:
+        with symbolic_env(**case.env):
+            res = sym.explore(lambda: case.run(inp), max_paths=4)
+    finally:
+        sym.LIFT_FLOATS = old
     return inp, res
 
 
@@ -538,6 +545,9 @@ def execute_case(prop, case, tier, seed):
                 flab = {o.label: o for o in fobs}
                 for o in robs:
                     v, mag = o.violated_concrete(max(case.tol, 1e-6))
+                    if v and mag < 1e-4:
+                        res["inconclusive"].append({"label": o.label, "why": "real-stack validation differs by %.2g (between rounding noise and a gross mismatch)" % mag})
+                        continue
                     fv = None
                     if o.label in flab:
                         fv, _ = flab[o.label].violated_concrete(1e-9)
